@@ -285,7 +285,7 @@ pub fn gen_history_for_queries(r: &mut Rng, thorough: bool, lat: bool, n: usize)
 
 pub fn gen(r: &mut Rng, thorough: bool) -> Vec<(String, String)> {
     let mut v = Vec::new();
-    let (nrand, maxops) = if thorough { (1500, 400) } else { (260, 40) };
+    let (nrand, maxops) = if thorough { (600, 400) } else { (260, 40) };
     for it in 0..nrand { v.push(random_history(r, maxops, it % 2 == 0)); }
     let nstruct = if thorough { 40 } else { 6 };
     for it in 0..nstruct {
@@ -293,7 +293,7 @@ pub fn gen(r: &mut Rng, thorough: bool) -> Vec<(String, String)> {
         v.push(drain_history(r, it % 2 == 0));
     }
     // traversal on the final state (histories ending with a refit) against brute force
-    let nq = if thorough { 400 } else { 60 };
+    let nq = if thorough { 150 } else { 60 };
     for it in 0..nq {
         let lat = it % 2 == 0;
         let var = r.below(10);
@@ -302,7 +302,7 @@ pub fn gen(r: &mut Rng, thorough: bool) -> Vec<(String, String)> {
         v.extend(h.queries(r, lat, 3));
     }
     // histories with rebalance / clear_and_rebuild: not modelled yet, invariant oracle on the dumped Rust state only
-    let nfull = if thorough { 600 } else { 100 };
+    let nfull = if thorough { 300 } else { 100 };
     for it in 0..nfull {
         let h = random_history_h(r, maxops, it % 2 == 0, true);
         v.push(("histo".to_string(), h.args()));
